@@ -42,7 +42,7 @@ func keyCmp(kind string, a, b string) int {
 			return 1
 		}
 		return 0
-	case "dates":
+	case "dates", "fardates":
 		x, _ := rvStr(a).asTime()
 		y, _ := rvStr(b).asTime()
 		switch {
@@ -183,7 +183,7 @@ func c07Case(w *core.Worker, i int) {
 		cpu = r.Range(2, 8)
 	}
 	nk := r.Range(1, 3)
-	kinds := []string{"nums", "ints", "text", "dates", "floats", "bigints"}
+	kinds := []string{"nums", "ints", "text", "dates", "floats", "bigints", "fardates"}
 	var profs []colProfile
 	var names []string
 	for j := 0; j < nk; j++ {
